@@ -7,11 +7,12 @@ import numpy as np
 
 import bct
 from bctmc import smallscope as ss
+from bctmc import named
 from bctmc.runner import guarded
 from bctmc.tally import Tally
 
 PROPERTY = 'C16'
-RULE = ('all labelled undirected graphs with n<=6 (quick) / n<=7 (thorough) nodes, each in three '
+RULE = ('the structured 7-10 node family of bctmc/named.py and all labelled undirected graphs with n<=6 (quick) / n<=7 (thorough) nodes, each in three '
         'variants (binary, weights {1,2}, non-zero diagonal), plus every asymmetric 0/1 matrix on '
         '3 nodes (with and without diagonal) and every 3-4 node symmetric graph perturbed in one cell by 1e-9 / 1e-12; a case is non-trivial when some component has >=3 '
         'nodes (several partial sets must be merged) or the input must be rejected')
@@ -25,6 +26,8 @@ def plan(ctx):
         tot = ss.und_count(n, (0, 1))
         for (a, b) in ss.ranges(tot, (256 if n >= 7 else 64) if n >= 5 else 4):
             units.append(('und', n, a, b))
+    for (a, b) in ss.ranges(len(named.family('bin_und')), 8):
+        units.append(('named', 0, a, b))
     for (a, b) in ss.ranges(ss.dir_count(3, (0, 1)), 4):
         units.append(('asym', 3, a, b))
     for n in (3, 4):
@@ -90,7 +93,14 @@ def work(unit):
     kind, n, a, b = unit
     t = Tally(PROPERTY)
     for idx in range(a, b):
-        if kind == 'und':
+        if kind == 'named':
+            label, A = named.family('bin_und')[idx]
+            for name, V in variants(A):
+                case = {'family': 'und', 'n': len(A), 'index': idx, 'graph': label, 'variant': name, 'A': V}
+                t.c['evaluations'] += 1
+                t.c['nontrivial'] += 1
+                check_und(t, V, name, case)
+        elif kind == 'und':
             A = ss.und_graph(n, (0, 1), idx)
             ref = ss.bfs_components(A)
             nontriv = max(np.bincount(ref)) >= 3
